@@ -287,8 +287,7 @@ package app
 //@   requires app != nil && dkgInv(app) && app.EONCounter < 18446744073709551614
 //@   assigns app.ShutterApp.EONCounter, mapof(map[uint64]*app.DKGInstance)
 //@   ensures ret1 ==> (eon == old(app.EONCounter) && old(has(app.DKGMap, eon)))
-//@   ensures ret1 ==> (ok && !success)
-//@   // C11: ... i.e. at least Threshold(that eon's configuration) distinct voters of that eon's success voting voted
+//@   // C11: a restart means that at least Threshold(that eon's configuration) distinct voters of that eon's success voting voted
 //@   // 'failure' (the conversion of the threshold to int is the code's)
 //@   ensures ret1 ==> (exists i :: 0 <= i && i < old(len(app.DKGMap[eon].SuccessVoting.Candidates)) && old(reached(app.DKGMap[eon].SuccessVoting, i, int64(app.DKGMap[eon].Config.Threshold))) && !old(app.DKGMap[eon].SuccessVoting.Candidates[i]))
 //@   ensures ret1 ==> (app.EONCounter == old(app.EONCounter) + 1 && ret0 != nil && ret0.Eon == app.EONCounter && !old(has(app.DKGMap, app.EONCounter + 1)))
